@@ -460,7 +460,7 @@ def pushArg (acc : Acc) (v : Constant) : Except Err Acc :=
     if enumAsserts.2 && !acc.wrap.isNone then .error (.panic "assertion failed: enum_wrap.is_none()")
     else .ok ⟨v :: acc.vals, acc.wrap⟩
 
-def sizeOf : SizeTy → Res
+def evalSizeOf : SizeTy → Res
   | .scalar s => (match scalarSize s with | some n => .ok (.uint32 n) | none => .error .notConst)
   | .enum u =>
     (match scalarSize u with
@@ -485,7 +485,7 @@ def eval : Expr → Res
     (match eval e with
      | .ok v => evalCast t v
      | .error e => .error e)
-  | .sizeOf t => sizeOf t
+  | .sizeOf t => evalSizeOf t
   | .op o args =>
     (match evalArgs args ⟨[], none⟩ with
      | .ok acc => finishOp o acc
